@@ -916,7 +916,10 @@ func genRefDiamond(r *rng) Project {
 		}
 		return val + ` // {or: [` + strings.Join(q, ", ") + `]}`
 	}
-	switch r.n(4) {
+	switch r.n(5) {
+	case 4: // a type whose `or` lists built-in alternatives and then refers back to itself
+		p.Text = r.pick([]string{val, `"x"`, `@a`})
+		p.Types = []TypeSpec{{"@a", "j", val + ` // {or: ["boolean", "string", "@a"]}`}, {"@b", "j", val + ` // {or: [{type: "integer", min: 0}, "@a", "@b"]}`}}
 	case 0: // diamond
 		p.Text = ref("@a", "@b")
 		p.Types = []TypeSpec{{"@a", "j", ref("@c")}, {"@b", "j", ref("@c")}, {"@c", "j", leaf}}
